@@ -16,7 +16,8 @@ RULE = ('a case is one tree (grammar-licensed over the English/Japanese lexicons
         'fingerprint of the tree; non-trivial = >= 2 leaves.')
 ASSUMPTIONS = ['token domain: no blank, no backslash, not ending in )[conj] / ][conj], not the literal ((S[b]\\NP)/NP)/ (the CCGbank '
                'repairs of read_auto apply to every field by design)']
-REQUIRED_MONITORS = {'read_auto:trees': 300, 'reprint:compared': 300, 'conll:concatenated': 300, 'tokens:with-brackets-or-angles': 50}
+REQUIRED_MONITORS = {'read_auto:trees': 300, 'reprint:compared': 300, 'conll:concatenated': 300, 'tokens:with-brackets-or-angles': 50,
+                     'read_auto:long-chains': 2}
 
 
 def shards(tier, seed):
